@@ -210,8 +210,10 @@ Ltac wstep H :=
   lazymatch type of H with
   | wbind ?m ?k ?w = Val (?r, ?w') =>
     let a := fresh "a" in let w1 := fresh "w" in let E := fresh "E" in let e := fresh "e" in
-    apply wbind_inv in H as [(a & w1 & E & H) | (e & E & ->)];
-    [ try ro_subst E | try ro_subst E ]
+    let Hr := fresh "Hr" in
+    apply wbind_inv in H as [(a & w1 & E & H) | (e & E & Hr)];
+    [ try ro_subst E
+    | first [ discriminate Hr | subst r | (injection Hr as Hr; try subst) | idtac ]; try ro_subst E ]
   end.
 
 (* basic inversions of leaf computations *)
